@@ -10,6 +10,7 @@ import (
 	"sync"
 	"testing"
 
+	"google.golang.org/protobuf/encoding/protowire"
 	"google.golang.org/protobuf/proto"
 	"google.golang.org/protobuf/reflect/protoreflect"
 	"pgregory.net/rapid"
@@ -24,6 +25,30 @@ type c17Case struct {
 	Kind string `json:"kind"` // valid | failure_invalid | other_invalid | garbage
 	Wire []byte `json:"wire"` // the encoding handed to the codec
 	Note string `json:"note,omitempty"`
+	// Prime: an encoding of the same root type decoded through the same codec first (its outcome is not judged): one
+	// codec instance serves the whole life of the proxy, earlier traffic must not change what happens to later traffic
+	Prime []byte `json:"prime,omitempty"`
+}
+
+// c17PrimeFor returns an encoding of d whose invalid UTF-8 sits in a plain top-level string field (not repairable),
+// or nil if the type has no such field.
+func c17PrimeFor(d protoreflect.MessageDescriptor) []byte {
+	fs := d.Fields()
+	for i := 0; i < fs.Len(); i++ {
+		fd := fs.Get(i)
+		if fd.Kind() == protoreflect.StringKind && !fd.IsList() && !fd.IsMap() {
+			b := protowire.AppendTag(nil, fd.Number(), protowire.BytesType)
+			return protowire.AppendBytes(b, []byte("prime-\xff-bad"))
+		}
+	}
+	return nil
+}
+
+func c17DoPrime(root string, prime []byte) {
+	if len(prime) == 0 {
+		return
+	}
+	_, _ = vfDecode(GetCodec(), prime, vfshared.NewMessage(vfshared.MessageDesc(root)))
 }
 
 type c17Verdict struct {
@@ -314,6 +339,7 @@ func TestVF_C17_Codec(t *testing.T) {
 		if _, err := vfshared.LoadReplay(f, &c); err != nil {
 			t.Fatal(err)
 		}
+		c17DoPrime(c.Root, c.Prime)
 		_, err := c17Oracle(c.Root, c.Wire)
 		st.Case(vfshared.Fingerprint(c.Root, string(c.Wire)), true)
 		if err != nil {
@@ -323,12 +349,19 @@ func TestVF_C17_Codec(t *testing.T) {
 	}
 	rapid.Check(t, func(rt *rapid.T) {
 		c := c17Gen(rt)
+		if c.Kind == "failure_invalid" && rapid.IntRange(0, 2).Draw(rt, "primed") == 0 {
+			c.Prime = c17PrimeFor(vfshared.MessageDesc(c.Root))
+		}
+		c17DoPrime(c.Root, c.Prime)
 		v, err := c17Oracle(c.Root, c.Wire)
 		if err != nil {
 			c17Fail(rt, st, part, c, err)
 		}
 		nontrivial := v.repaired && (v.affected >= 2 || v.maxDepth >= 3)
 		cl := []string{"kind_" + c.Kind}
+		if len(c.Prime) > 0 {
+			cl = append(cl, "after_an_unrepairable_message_of_the_same_type")
+		}
 		switch {
 		case v.stdOK:
 			cl = append(cl, "std_accepts")
